@@ -77,8 +77,9 @@ def main():
     finally:
         sh(f'git -C /repo worktree remove --force {wt}')
         # regenerate tables from the real /repo so the tree is back to normal
-        sh("/venv/bin/python -c 'import sys; sys.path.insert(0, \".\"); from harness import tables; tables.generate()'",
-           cwd=VERIF)
+        sh("/venv/bin/python -c 'import sys, fcntl; sys.path.insert(0, \".\"); "
+           "l = open(\"lean/.session.lock\", \"w\"); fcntl.flock(l, fcntl.LOCK_EX); "
+           "from harness import tables; tables.generate()'", cwd=VERIF)
     json.dump(res, open(os.path.join(d, 'result.json'), 'w'), indent=1)
     print(json.dumps({k: (v if k != 'checks' else {p: (c['caught'], c['with_failing_input'], c['summary'])
                                                    for p, c in v.items()}) for k, v in res.items()
